@@ -30,19 +30,31 @@ FK_KEY_CASE = 'C20:key-case'
 FK_NONFINITE = 'C20:nonfinite-float'
 FK_PERCENT = 'C20:percent-interpolation'
 FK_WHITESPACE = 'C20:str-whitespace'
-FK_SECTIONS_DICT = 'C20:update-params-sections-dict'
-FK_AUTO_TYPEERROR = 'C20:auto-uncaught-typeerror'
 FK_PROTONATE = 'C20:protonate-unusable'
 
 
 # --------------------------------------------------------------------------- literals
+def zlit(n):
+    """Z literal; hexadecimal beyond 2^60 (Coq parses long decimal numerals in quadratic time)."""
+    n = int(n)
+    if abs(n) < 2 ** 60:
+        return core.zlit(n)
+    return '(- 0x%x)%%Z' % -n if n < 0 else '0x%x%%Z' % n
+
+
+def qlit(fr):
+    fr = Fraction(fr)
+    d = fr.denominator
+    return '(Qmake %s %s)' % (zlit(fr.numerator), '%d' % d if d < 2 ** 60 else '0x%x' % d)
+
+
 def value_lit(v):
     if v is None:
         return 'VNone'
     if type(v) is bool:
         return 'VBool %s' % core.blit(v)
     if type(v) is int:
-        return 'VInt %s' % core.zlit(v)
+        return 'VInt %s' % zlit(v)
     if type(v) is float:
         return 'VFloat %s' % S(repr(v))
     return 'VStr %s' % S(v)
@@ -53,7 +65,7 @@ def fval_lit(x):
         return 'FNaN'
     if math.isinf(x):
         return 'FPInf' if x > 0 else 'FNInf'
-    return '(FFin %s)' % core.qlit(Fraction(x))
+    return '(FFin %s)' % qlit(Fraction(x))
 
 
 def obs_lit(x):
@@ -62,7 +74,7 @@ def obs_lit(x):
     if type(x) is bool:
         return '(OBool %s)' % core.blit(x)
     if type(x) is int:
-        return '(OInt %s)' % core.zlit(x)
+        return '(OInt %s)' % zlit(x)
     if type(x) is float:
         return '(OFloat %s)' % fval_lit(x)
     if type(x) is str and G.modelled(x):
@@ -113,14 +125,15 @@ def same_value(a, b):
     return a == b
 
 
+NOT_LITERAL = (ValueError, SyntaxError, TypeError, MemoryError, RecursionError)   # get_value(auto=True) keeps the string
+
+
 def is_literal(s):
     try:
         ast.literal_eval(s)
         return True
-    except (ValueError, SyntaxError):
+    except NOT_LITERAL:
         return False
-    except Exception:
-        return True
 
 
 # --------------------------------------------------------------------------- generators
@@ -177,11 +190,11 @@ def gen_float(rng, nonfinite=True):
     return rng.choice([float('inf'), float('-inf'), float('nan')])
 
 
-TRICKY = ['None', 'True', 'False', '1e5', '5', '-3', '0.5', ' padded ', '\ttab', 'trail ', 'a=b', 'a:b', 'x;y', '#c', ';c', '%(x)s',
+TRICKY = ['None', 'True', 'False', '1e5', '5', '-3', '0.5', ' padded ', '\ttab', 'trail ', 'a=b', 'a:b', 'x;y', '#c', ';c', '%(nosuch)s',
           '50%', '%%', 'a%%b', '%', 'UPPER', 'Mixed Case', 'hello world', 'two  spaces', '', '1_000', '0x10', '(1)', "'quoted'",
           '"dq"', '1+2j', '[1, 2]', '(1, 2)', "{'a': 1}", '{}', '()', '[]', '1,2', '...', '.5', '1.', '1e400', '-inf', 'inf', 'nan',
           'NaN', '- 5', '+5', '--5', '00', '01', '1j', "b'x'", "r'x'", 'set()', 'None,', '5 #c', '[section]', '[', '= x', ': y',
-          'key = value', '1.2.3', '2017-01-01', '1e', 'e5', '~5', 'not', 'a\nb', 'a\n b', 'a\n\nb', 'a\n#b', 'a\n',
+          'key = value', '1.2.3', '2017-01-01', '1e', 'e5', '~5', 'not', '{[]:1}', '{[]}', 'a\nb', 'a\n b', 'a\n\nb', 'a\n#b', 'a\n',
           'a\n[x]', 'a\nk = v', '0b101', '0o17', '1__0', '٣', 'naïve', 'λ']
 
 
@@ -240,7 +253,7 @@ def run(ctx):
     from e3fp import pipeline
     cases, payloads, mexpr = [], {}, {}
     found_input = False
-    dist = {'configs': 0, 'tricky_configs': 0, 'upper_key_configs': 0, 'values_by_type': {}, 'stage_cases': {},
+    dist = {'update_form': {}, 'configs': 0, 'tricky_configs': 0, 'upper_key_configs': 0, 'values_by_type': {}, 'stage_cases': {},
             'literal_strings': 0, 'literal_unmodelled': 0, 'ini_texts': 0, 'e2e_runs': 0, 'getter_queries': 0,
             'known_class_hits': {}, 'prop_checks': 0, 'fallback_checks': 0}
     path, dtext, dparsed = G.defaults_file()
@@ -269,7 +282,7 @@ def run(ctx):
                     continue
                 try:
                     want = ast.literal_eval(raw)
-                except (ValueError, SyntaxError):
+                except NOT_LITERAL:
                     want = raw
                 if sec == 'fingerprinting' and opt == 'bits':
                     want = fprinter.BITS
@@ -325,18 +338,35 @@ def run(ctx):
         conf_lit = core.listlit(['(%s, %s)' % (S(s), dict_lit(kv, value_lit)) for s, kv in conf])
         fn = os.path.join(ctx.workdir, 'p%d.cfg' % ci)
 
-        # stage 1-2: update_params (section by section) and write_params
+        # stage 1-2: update_params (single-section calls, or one call in the sections-dict form) and write_params
+        form = 'sections_dict' if ci % 2 else 'single_section'
+        dist['update_form'][form] = dist['update_form'].get(form, 0) + 1
+
         def build():
-            params = None
-            for s, kv in conf:
-                params = P.update_params(dict(kv), params=params, section_name=s)
+            if form == 'single_section':
+                params = None
+                for s, kv in conf:
+                    params = P.update_params(dict(kv), params=params, section_name=s)
+            else:
+                params = P.update_params(dict((s, dict(kv)) for s, kv in conf))
             P.write_params(params, fn)
             return open(fn).read()
         r_text = attempt(build)
+        mupd = 'update_all []' if form == 'single_section' else 'update_params_sections []'
         add_case('write', tag + '/write',
-                 'result_match String.eqb (rbind (update_all [] %s) (fun c => Ok (render c))) %s' % (conf_lit, res_lit(r_text, S)),
-                 {'config': conf_json, 'impl_file_text_or_error': r_text[1:]},
-                 'rbind (update_all [] %s) (fun c => Ok (render c))' % conf_lit)
+                 'result_match String.eqb (rbind (%s %s) (fun c => Ok (render c))) %s' % (mupd, conf_lit, res_lit(r_text, S)),
+                 {'config': conf_json, 'update_params_form': form, 'impl_file_text_or_error': r_text[1:]},
+                 'rbind (%s %s) (fun c => Ok (render c))' % (mupd, conf_lit))
+        # sections-dict form on top of an existing file (the packaged defaults)
+        if ci % 4 == 1:
+            def onfile():
+                cp = P.update_params(dict((s, dict(kv)) for s, kv in conf), params=path)
+                return [(s, [(k, cp.get(s, k, raw=True)) for k in cp.options(s)]) for s in cp.sections()]
+            r_of = attempt(onfile)
+            mo = 'rbind (parse_file defaults_cfg_text) (fun b => update_params_sections b %s)' % conf_lit
+            add_case('update_on_file', tag + '/onfile', 'result_match cfg_eqb (%s) %s' % (mo, res_lit(r_of, cfg_lit)),
+                     {'config': conf_json, 'params': 'defaults.cfg', 'impl_raw_items_or_error': r_of[1:]}, mo)
+            ctx.count((tag, 'onfile'), True)
         ctx.count((tag, 'write', str(conf_json)), any(kv for _, kv in conf))
         if r_text[0] != 'ok':
             nv0 = len(ctx.violations)
@@ -344,14 +374,20 @@ def run(ctx):
             found_input = found_input or len(ctx.violations) > nv0
             continue
         text = r_text[1]
-        tlit = S(text)
+        text_lit = S(text)
+        tlit = 't'              # the file text is bound once per case: let t := <text> in ...
+        stages = []             # (stage, bool expr, model output expr, payload part)
+
+        def add_stage(stage, key, expr, payload, model_out):
+            stages.append((stage, expr, model_out, payload))
+            dist['stage_cases'][stage] = dist['stage_cases'].get(stage, 0) + 1
 
         # stage 3: read_params with / without the defaults
         def readback():
             cp = P.read_params(fn, fill_defaults=fill)
             return cp, [(s, [(k, cp.get(s, k, raw=True)) for k in cp.options(s)]) for s in cp.sections()]
         r_read = attempt(readback)
-        add_case('read', tag + '/read',
+        add_stage('read', tag + '/read',
                  'result_match cfg_eqb (read_params defaults_cfg_text %s (Some %s)) %s' % (core.blit(fill), tlit, res_lit(r_read, lambda x: cfg_lit(x[1]))),
                  {'config': conf_json, 'file_text': text, 'fill_defaults': fill, 'impl_raw_items_or_error': r_read[1:] if r_read[0] != 'ok' else r_read[1][1]},
                  'read_params defaults_cfg_text %s (Some %s)' % (core.blit(fill), tlit))
@@ -360,12 +396,12 @@ def run(ctx):
         # stage 4-5: params_to_sections_dict / params_to_dicts
         r_sd = attempt(lambda: [(s, list(d.items())) for s, d in P.params_to_sections_dict(fn).items()])
         sd_lit = res_lit(r_sd, lambda sd: core.listlit(['(%s, %s)' % (S(s), dict_lit(kv, obs_lit)) for s, kv in sd]))
-        add_case('sections_dict', tag + '/sd', 'result_match sdict_matches (params_to_sections_dict defaults_cfg_text %s) %s' % (tlit, sd_lit),
+        add_stage('sections_dict', tag + '/sd', 'result_match sdict_matches (params_to_sections_dict defaults_cfg_text %s) %s' % (tlit, sd_lit),
                  {'config': conf_json, 'file_text': text, 'impl_sections_dict_or_error': repr(r_sd[1:])[:1500]},
                  'params_to_sections_dict defaults_cfg_text %s' % tlit)
         r_pd = attempt(lambda: tuple(list(d.items()) for d in pipeline.params_to_dicts(fn)))
         pd_lit = res_lit(r_pd, lambda pd: '(%s, %s)' % (dict_lit(pd[0], obs_lit), dict_lit(pd[1], obs_lit)))
-        add_case('params_to_dicts', tag + '/pd',
+        add_stage('params_to_dicts', tag + '/pd',
                  'result_match (pair_match dict_matches dict_matches) (params_to_dicts defaults_cfg_text %s) %s' % (tlit, pd_lit),
                  {'config': conf_json, 'file_text': text, 'impl_params_to_dicts_or_error': repr(r_pd[1:])[:1500]},
                  'params_to_dicts defaults_cfg_text %s' % tlit)
@@ -380,7 +416,7 @@ def run(ctx):
             cand = present + [(rng.choice(SECTIONS), gen_key(rng, rng.choice(SECTIONS))) for _ in range(2)] + [('nosuch', 'x')]
             for s, k in rng.sample(cand, min(len(cand), 5)):
                 sent = object()
-                for dt, fn_m, cmp_m, lit_f in (('int', 'get_int', 'oZ_eqb', lambda x: core.optlit(x)), ('float', 'get_float', 'ofval_close', lambda x: core.optlit(x, fval_lit)),
+                for dt, fn_m, cmp_m, lit_f in (('int', 'get_int', 'oZ_eqb', lambda x: core.optlit(x, zlit)), ('float', 'get_float', 'ofval_close', lambda x: core.optlit(x, fval_lit)),
                                                ('bool', 'get_bool', 'obool_eqb', lambda x: core.optlit(x, core.blit)), ('str', 'get_str', 'String.eqb', S)):
                     pyt = {'int': int, 'float': float, 'bool': bool, 'str': str}[dt]
                     rg = attempt(lambda: P.get_value(cp, s, k, dtype=pyt, fallback=sent))
@@ -400,7 +436,7 @@ def run(ctx):
                 rl = res_lit(rg, obs_lit)
                 qs.append('result_match cls_matches (get_auto c %s %s) %s' % (S(s), S(k), rl))
                 dist['getter_queries'] += 1
-            add_case('getters', tag + '/get',
+            add_stage('getters', tag + '/get',
                      'match read_params defaults_cfg_text %s (Some %s) with Ok c => forallb (fun b : bool => b) %s | Raises _ => false end' % (core.blit(fill), tlit, core.listlit(qs)),
                      {'config': conf_json, 'file_text': text, 'fill_defaults': fill, 'queries': qs},
                      'match read_params defaults_cfg_text %s (Some %s) with Ok c => %s | Raises _ => [] end' % (core.blit(fill), tlit, core.listlit(qs)))
@@ -434,24 +470,30 @@ def run(ctx):
                         ctx.fail('option absent from the user file is present although defaults were not requested',
                                  {'config': conf_json, 'section': s, 'option': k})
 
+        pl = {'config': conf_json, 'file_text': text, 'fill_defaults': fill}
+        for st, _, _, p_ in stages:
+            pl[st] = dict((k_, v_) for k_, v_ in p_.items() if k_ not in pl)
+        cases.append((tag + '/pipeline', 'let t := %s in (%s)' % (text_lit, ' && '.join('(%s)' % e for _, e, _, _ in stages))))
+        payloads[tag + '/pipeline'] = pl
+        mexpr[tag + '/pipeline'] = 'let t := %s in (%s)' % (text_lit, ', '.join('(%s, (%s), (%s))' % (S(st), e, m) for st, e, m, _ in stages))
+
         # prop (a): every supported value reads back as the same typed value
         nv0 = len(ctx.violations)
         _prop_roundtrip(ctx, conf, r_sd, known, conf_json, text, dist)
         found_input = found_input or len(ctx.violations) > nv0
 
-    # ---- update_params, sections-dict form (the documented second calling convention) --------------------------
-    r1 = attempt(lambda: P.update_params({'fingerprinting': {'level': 4}}, params=path))
-    r2 = attempt(lambda: P.update_params({'fingerprinting': {'level': '4'}}))
-    if r1[0] != 'ok' or r2[0] != 'ok':
-        known(FK_SECTIONS_DICT, 'update_params(sections_dict) cannot take typed values / creates no section', {'typed_value': r1[1:], 'no_params': r2[1:]})
-    # a string value that literal_eval rejects with TypeError escapes get_value(auto=True)
+    # ---- regression probes of the two repaired defects (25a2190, edaa6d4) ------------------------------------------
+    r1 = attempt(lambda: dict(P.update_params({'fingerprinting': {'level': 4}}, params=path)['fingerprinting'])['level'])
+    r2 = attempt(lambda: dict(P.update_params({'newsection': {'level': 4}})['newsection'])['level'])
+    if r1 != ('ok', '4') or r2 != ('ok', '4'):
+        found_input = True
+        ctx.fail('update_params(sections_dict) cannot take typed values / creates no section', {'typed_value': r1[1:], 'no_params': r2[1:]})
     fn = os.path.join(ctx.workdir, 'te.cfg')
     P.write_params(P.update_params({'out_dir': '{[]:1}'}, section_name='conformer_generation'), fn)
-    r3 = attempt(lambda: P.params_to_sections_dict(fn))
-    if r3[0] != 'ok':
-        known(FK_AUTO_TYPEERROR, "get_value(auto=True) lets literal_eval's TypeError escape", {'value': '{[]:1}', 'error': r3[1:]})
-    elif r3[1]['conformer_generation']['out_dir'] != '{[]:1}':
-        ctx.fail('string {[]:1} read back as something else', {'got': repr(r3[1])})
+    r3 = attempt(lambda: P.params_to_sections_dict(fn)['conformer_generation']['out_dir'])
+    if r3 != ('ok', '{[]:1}'):
+        found_input = True
+        ctx.fail("string value '{[]:1}' (literal_eval raises TypeError) does not read back as itself", {'got': repr(r3[1:])})
     # the packaged defaults, through params_to_dicts, as keyword arguments of generate_conformers
     import inspect
     from e3fp.conformer.generate import generate_conformers
@@ -498,10 +540,8 @@ def run(ctx):
         try:
             rv = ast.literal_eval(s)
             o = obs_lit(rv)
-        except (ValueError, SyntaxError):
+        except NOT_LITERAL:
             o = obs_lit(s)
-        except Exception:
-            o = 'OOther'
         key = 'lit/%d' % i
         add_case('literal', key, 'cls_matches (classify %s) %s && Bool.eqb (plain_word %s) %s' % (S(s), o, S(s), core.blit(py_plain_word(s))),
                  {'string': s[:200], 'literal_eval_observation': o[:200]}, '(classify %s, plain_word %s)' % (S(s), S(s)))
@@ -610,11 +650,8 @@ def _prop_failed_set(ctx, conf, r_text, known, conf_json):
 def _prop_roundtrip(ctx, conf, r_sd, known, conf_json, text, dist):
     if r_sd[0] != 'ok':
         pct = [(s, k, v) for s, kv in conf for k, v in kv if type(v) is str and '%' in v]
-        te = [(s, k, v) for s, kv in conf for k, v in kv if type(v) is str and v.strip() in ('{[]:1}', '{[]}')]
         if pct:
             known(FK_PERCENT, 'a string value containing %% makes the file unreadable: %s' % (r_sd[2],), {'config': conf_json, 'value': pct[0][2]})
-        elif te and r_sd[1] == 'EType':
-            known(FK_AUTO_TYPEERROR, "get_value(auto=True) lets literal_eval's TypeError escape", {'config': conf_json, 'value': te[0][2]})
         else:
             ctx.fail('a supported option set cannot be read back: %s' % (r_sd[2],), {'config': conf_json, 'file_text': text})
         return
